@@ -38,10 +38,11 @@ def run(ctx, check, exhaustive, negatives, sim, sim_quick, sim_thorough, depth):
         if not neg["inv"] or (expect and neg["inv"] not in expect):
             raise Broken("negative control %s: expected a violation of %s, TLC reported %s\n%s" % (ncfg, expect, neg["inv"], neg["out"][-1500:]))
     # spec -> code: every transition of the graph on the real nodes; code -> spec: the monitor judges the log
-    files, summ = ctx.replay("ledger", graph=dot, shards=16, maxlen=24, name="ledger_%s_graph" % check, timeout=3000)
+    files, summ = ctx.replay("ledger", graph=dot, shards=16, maxlen=24, name="ledger_%s_graph" % check, timeout=3000,
+                             limit=3000 if ctx.quick() else 0)   # quick: a seeded sample of the tour's behaviours
     ok = ctx.validate("TraceLedger", "TraceLedger.cfg", files, what="state graph %s" % cfg, timeout=3000, consts=consts)
     ctx.cov["samples"] = summ["samples"]
-    ctx.cov["exhaustive"] = True
+    ctx.cov["exhaustive"] = not ctx.quick() or summ["behaviours"] == summ["behaviours_total"]
     ctx.extra["graph"] = dict(cfg=cfg, nodes=summ["graph_nodes"], edges=summ["graph_edges"], behaviours=summ["behaviours"],
                               real_blocks_mined=summ["steps"], accepted=ok, actions=summ["action_counts"])
     # wider universe (more accounts, amounts, kinds mixed, longer blocks): seeded simulation of the same model
